@@ -252,6 +252,8 @@ pub const CODE_CORRUPTION_INDEX_BLOCK_RUNS_PAST_FILTER_BLOCK: &str =
     "corruption-index-block-runs-past-filter-block";
 pub const CODE_CORRUPTION_FILTER_BLOCK_RUNS_PAST_FINAL_BLOCK: &str =
     "corruption-filter-block-runs-past-final-block";
+pub const CODE_CORRUPTION_DATA_BLOCK_RUNS_PAST_INDEX_BLOCK: &str =
+    "corruption-data-block-runs-past-index-block";
 pub const CODE_CORRUPTION_BLOCK_METADATA_START_GTE_LIMIT: &str =
     "corruption-block-metadata-start-gte-limit";
 pub const CODE_CORRUPTION_META_BLOCK_NULL_VALUE: &str = "corruption-meta-block-null-value";
@@ -323,6 +325,8 @@ const FIELD_FINAL_BLOCK_OFFSET: &str = "final_block_offset";
 const FIELD_INDEX_BLOCK_LIMIT: &str = "index_block_limit";
 const FIELD_FILTER_BLOCK_START: &str = "filter_block_start";
 const FIELD_FILTER_BLOCK_LIMIT: &str = "filter_block_limit";
+const FIELD_DATA_BLOCK_LIMIT: &str = "data_block_limit";
+const FIELD_INDEX_BLOCK_START: &str = "index_block_start";
 const FIELD_BLOCK_METADATA_START: &str = "block_metadata_start";
 const FIELD_WHAT: &str = "what";
 const FIELD_RESTART_POINT: &str = "restart_point";
@@ -495,6 +499,15 @@ fn corruption_filter_block_runs_past_final_block(
     error(CODE_CORRUPTION_FILTER_BLOCK_RUNS_PAST_FINAL_BLOCK)
         .with_atom_field(FIELD_FILTER_BLOCK_LIMIT, filter_block_limit)
         .with_atom_field(FIELD_FINAL_BLOCK_OFFSET, final_block_offset)
+}
+
+fn corruption_data_block_runs_past_index_block(
+    data_block_limit: u64,
+    index_block_start: u64,
+) -> SError {
+    error(CODE_CORRUPTION_DATA_BLOCK_RUNS_PAST_INDEX_BLOCK)
+        .with_atom_field(FIELD_DATA_BLOCK_LIMIT, data_block_limit)
+        .with_atom_field(FIELD_INDEX_BLOCK_START, index_block_start)
 }
 
 fn corruption_block_metadata_start_gte_limit(start: u64, limit: u64) -> SError {
@@ -1463,6 +1476,18 @@ impl<W: Clone + Seek + Write + FileExt> Sst<W> {
         }
         let index_block = Sst::load_block(&handle, &final_block.index_block)?;
         let index_entries = Arc::new(Sst::<W>::load_index_entries(&index_block)?);
+        // Check that every data block lies in front of the index block, so that the size of a
+        // block to load is bounded by the size of the file.
+        for entry in index_entries.iter() {
+            entry.metadata.sanity_check()?;
+            if entry.metadata.limit > final_block.index_block.start {
+                CORRUPTION.click();
+                return Err(corruption_data_block_runs_past_index_block(
+                    entry.metadata.limit,
+                    final_block.index_block.start,
+                ));
+            }
+        }
         let filter = Sst::load_filter_block(&handle, &final_block.filter_block)?;
         Ok(Self {
             handle,
